@@ -121,6 +121,8 @@ pub struct Acc {
     pub failed: bool,
     pub kind_hist: [u64; NKINDS],
     pub kind_noop: [u64; NKINDS],
+    /// raw bytes of a few non-trivial cases (seed corpus for the fuzz stage)
+    pub seed_inputs: Vec<Vec<u8>>,
 }
 
 impl Default for Acc {
@@ -137,6 +139,7 @@ impl Default for Acc {
             failed: false,
             kind_hist: [0; NKINDS],
             kind_noop: [0; NKINDS],
+            seed_inputs: vec![],
         }
     }
 }
@@ -303,7 +306,11 @@ pub fn run_worker(
                 }
                 if counting && (spec.nontrivial)(&out.stats, out.flags) {
                     let h = hash_raw(&raw);
-                    if a.nontrivial.insert(h) && a.samples.len() < 2 {
+                    let fresh = a.nontrivial.insert(h);
+                    if fresh && a.seed_inputs.len() < 6 {
+                        a.seed_inputs.push(raw.to_bytes());
+                    }
+                    if fresh && a.samples.len() < 2 {
                         let mut c = case.clone();
                         let total = c.ops.len();
                         if a.samples.len() == 1 {
@@ -424,6 +431,7 @@ pub fn merge(into: &mut Acc, from: Acc) {
             into.samples.push(s);
         }
     }
+    into.seed_inputs.extend(from.seed_inputs);
 }
 
 pub fn salt(id: &str) -> u64 {
@@ -569,4 +577,79 @@ pub fn load_replay(path: &str) -> Result<(Case, serde_json::Value), String> {
 
 pub fn known_for(id: &str) -> Vec<Known> {
     findings::load().into_iter().filter(|k| k.property == id || id == "*").collect()
+}
+
+// ---------------------------------------------------------------------------- fuzz stage (thorough tier)
+
+pub struct FuzzOut {
+    pub ran: bool,
+    pub runs: u64,
+    pub artifacts: Vec<std::path::PathBuf>,
+    pub wall_s: f64,
+    pub note: String,
+}
+
+/// Runs a libFuzzer target (built by `cargo +nightly fuzz build --fuzz-dir /verif/fuzz`) with a fixed
+/// number of runs. The target itself carries the oracle; an artifact is a candidate violation
+/// that the caller re-judges with the plain interpreter.
+pub fn fuzz_stage(target: &str, prop: &str, runs_total: u64, seed: u64, seeds: &[Vec<u8>], max_len: usize, jobs: usize) -> FuzzOut {
+    let bin = format!("/verif/fuzz/target/x86_64-unknown-linux-gnu/release/{}", target);
+    let t0 = Instant::now();
+    if !std::path::Path::new(&bin).exists() {
+        return FuzzOut { ran: false, runs: 0, artifacts: vec![], wall_s: 0.0, note: format!("{} not built", bin) };
+    }
+    let dir = format!("/verif/work/fuzz/{}-{}", prop, target);
+    let _ = std::fs::remove_dir_all(&dir);
+    let corpus = format!("{}/corpus", dir);
+    let arts = format!("{}/artifacts/", dir);
+    let _ = std::fs::create_dir_all(&corpus);
+    let _ = std::fs::create_dir_all(&arts);
+    for (i, s) in seeds.iter().enumerate() {
+        let _ = std::fs::write(format!("{}/seed-{:03}", corpus, i), s);
+    }
+    let per = (runs_total / jobs as u64).max(1);
+    let out = std::process::Command::new(&bin)
+        .current_dir(&dir)
+        .env("VERIF_FUZZ_PROP", prop)
+        .arg(format!("-runs={}", per))
+        .arg(format!("-seed={}", (seed % 0xffff_fff0) + 1))
+        .arg("-len_control=0")
+        .arg(format!("-max_len={}", max_len))
+        .arg(format!("-jobs={}", jobs))
+        .arg(format!("-workers={}", jobs))
+        .arg(format!("-artifact_prefix={}", arts))
+        .arg("-print_final_stats=0")
+        .arg("-timeout=60")
+        .arg("-rss_limit_mb=4096")
+        .arg(&corpus)
+        .output();
+    let mut runs = 0u64;
+    if let Ok(rd) = std::fs::read_dir(&dir) {
+        for e in rd.filter_map(|e| e.ok()) {
+            let p = e.path();
+            if p.file_name().map_or(false, |n| n.to_string_lossy().starts_with("fuzz-") && n.to_string_lossy().ends_with(".log")) {
+                if let Ok(t) = std::fs::read_to_string(&p) {
+                    for l in t.lines() {
+                        if let Some(rest) = l.strip_prefix("Done ") {
+                            if let Some(n) = rest.split_whitespace().next().and_then(|x| x.parse::<u64>().ok()) {
+                                runs += n;
+                            }
+                        }
+                    }
+                }
+            }
+        }
+    }
+    let mut artifacts = vec![];
+    if let Ok(rd) = std::fs::read_dir(&arts) {
+        for e in rd.filter_map(|e| e.ok()) {
+            artifacts.push(e.path());
+        }
+    }
+    artifacts.sort();
+    let note = match out {
+        Ok(o) => format!("exit {:?}", o.status.code()),
+        Err(e) => format!("spawn failed: {}", e),
+    };
+    FuzzOut { ran: true, runs, artifacts, wall_s: t0.elapsed().as_secs_f64(), note }
 }
